@@ -74,3 +74,38 @@ prop("C14",
      trusted_base=["vlapi/mqttp codec"],
      assumptions=["ACL verdict per packet is an oracle", "the DISCONNECT reason for an invalid alias may be 0x94, 0x81 or 0x82 (the property only requires termination)"],
 )
+
+_WRITER_COQ = ["model/Flow.v", "model/Writer.v", "proofs/FlowProofs.v", "proofs/WriterProofs.v", "chk/C03chk.v"]
+_WRITER_RULE = ("histories of 4-25 operations (+12 draining acks) against one durable subscriber S (v5 with Receive Maximum in {1,1,2,3,10}, 15% v3.1.1): "
+    "send(qos 0/1/2, expiry none/1 s/100 s) by a publisher, ack(k-th outstanding handshake of the client's own log; 10% PUBREC with error code on v5), abrupt close, "
+    "reconnect(rm, possibly changed, never below the client's outstanding count). After every operation: routing barrier (sentinel to a second subscriber) and "
+    "writer barrier (two PINGREQ round trips), so S's packets are attributed to the operation without timing. Coq replays the concrete event list through the writer model "
+    "(wire output per operation must agree, reconnect step as a multiset) AND evaluates the property oracle on S's own log (in-flight <= RM, ids non-zero, reuse only after completion "
+    "or as DUP retransmission). non-trivial = every history (all contain QoS>0 traffic and acks); distinct by case JSON.")
+prop("C03",
+     coq=_WRITER_COQ + ["props/C03.v", "refute/C03.v"],
+     n={"quick": 600, "thorough": 12000, "search": 2500},
+     shrink_fields=["ops"], shrink_min=1,
+     rule=_WRITER_RULE,
+     level_text="Theorems (coq/props/C03.v) over the executable model of flowControl.go + writer.go: for EVERY Receive Maximum 0..65535 and EVERY guarded history of send / writer round / ack / "
+                "expiry / close / reconnect: the writer never gets stuck in the identifier search (the candidates cover the whole cycle 1..65535: wrap-around), and in every reachable state "
+                "quota + |in use| = RM, identifiers in use are pairwise distinct and non-zero, everything put on the wire at QoS>0 is registered in use, a fresh identifier is never one in use, "
+                "and at quiescence the full RM is available again. Guard: the client acknowledges only what it was sent and reconnects with RM >= its unacknowledged count; outside the guard "
+                "refute/C03.v gives the witness (open known finding C03-reconnect-lower-rm, replayed on every run). Partial: reader/writer goroutine interleavings finer than one Flow operation.",
+     level_note="Trusted: Coq kernel + vm_compute; hand translation of flowControl.go/writer.go/onAck incl. the abstraction of the uint32 counter to the id cycle 1..65535 (checked by the differential run); persistence backend semantics (append, remove-on-load).",
+     trusted_base=["vlplugin persistence/mem (append on store, remove on load)", "vlapi codec"],
+     assumptions=["generic packets (SUBACK, PINGRESP ...) are not modelled", "one popPackets round is atomic w.r.t. acknowledgement processing"],
+)
+prop("C02", harness="C02",
+     coq=_WRITER_COQ + ["props/C02.v", "props/C03.v"],
+     n={"quick": 500, "thorough": 10000, "search": 2000},
+     shrink_fields=["ops"], shrink_min=1,
+     rule=_WRITER_RULE + " For C02 every history contains close/reconnect operations.",
+     level_text="Theorems (coq/props/C02.v, with the C03 invariant): for every Receive Maximum >= 1 a connected client that acknowledged everything is sent the next pending QoS 1/2 message by the "
+                "next writer round (no stall); everything transmitted and unacknowledged at connection end is queued with its identifier and DUP=1 for unconditional retransmission at reconnect "
+                "and is served first; queued unexpired messages survive in persistence. The whole-history conservation statement C02_no_loss_full is stated but NOT yet proved (partial): "
+                "it is checked per generated history by the packet-by-packet agreement of model and client log. Network loss timing is outside the model.",
+     level_note="Trusted: as C03; plus clients.sessionPersistPublish modelled as the offline branch of send.",
+     trusted_base=["vlplugin persistence/mem", "vlapi codec"],
+     assumptions=["the session stays durable (no expiry elapses) during a history", "Maximum Packet Size filtering is not modelled"],
+)
